@@ -26,6 +26,7 @@ ODDNAMES = {"i0": "_en", "i1": "b0", "i2": "d1", "g": "_y1", "h": "h1", "a": "_a
 
 def all_cases(ctx):
     base = F.f_unit(4) + F.f_shape() + F.f_bb() + F.f_rand(ctx.seed, 30 if ctx.quick else 300) + F.f_rand_bb(ctx.seed, 12 if ctx.quick else 100)
+    base += F.f_wide((17, 33) if ctx.quick else (17, 18, 20, 32, 33, 40))
     cs = [(("sub",) + cid, ("spec", s)) for cid, s in base]
     cs += [(("sub", "ioname") + cid, ("spec", rename(s, lambda n: IONAMES.get(n, n)))) for cid, s in F.f_unit(3, pairs=False) + F.f_shape()[:6] + [c for c in F.f_unit(3) if c[0][0] == "pair"][:8]]
     BUFBOX = ["BUF", ["A"], ["Y"]]
@@ -37,6 +38,9 @@ def all_cases(ctx):
     cs.append((("sub", "upper_prim_names"), ("spec", upper)))
     ties = {"a": "tie0", "b": "tie1", "i0": "tie0", "i1": "tie1", "s": "tie_0"}
     cs += [(("sub", "tienames") + cid, ("spec", rename(s, lambda n: ties.get(n, n)))) for cid, s in F.f_shape() + F.f_bb() + [c for c in F.f_rand(ctx.seed + 3, 12, consts=True)]]
+    # the constant-node names AND the names the parser would pick next are all taken by nets of the module
+    ties2 = {"a": "tie0", "b": "tie0_", "i0": "tie1", "i1": "tie1_", "s": "tie0__", "c": "tie1__"}
+    cs += [(("sub", "tienames2") + cid, ("spec", rename(s, lambda n: ties2.get(n, n)))) for cid, s in F.f_shape() + [c for c in F.f_rand(ctx.seed + 3, 12, consts=True)]]
     cs += [(("sub", "oddnames") + cid, ("spec", rename(s, lambda n: ODDNAMES.get(n, n)))) for cid, s in F.f_unit(3, pairs=False) + F.f_shape()[:8] + [c for c in F.f_unit(3) if c[0][0] == "pair"][:8]]
     cs += [(("writer",) + cid, ("writer", s)) for cid, s in base[::3]]
     cs += [(("lib", n), ("lib", n)) for n in (["c17", "c17_gates", "s27", "c432"] + ([] if ctx.quick else ["c499", "c880", "c1355"]))]
